@@ -672,6 +672,10 @@ impl Prop for C08 {
                     [(3, 2), (-3, 2), (4, 3), (2, 3), (1025, 1024), (1024, 1025), (2147483647, 2147483646), (2147483646, 2147483647), (-2147483647, 2147483646)];
                 for (n, d) in near_one {
                     for e in [34i64, 100, 647, 700, 1000, 2000] {
+                        // (31-bit numerators only up to 100: their exact powers are large)
+                        if n.abs() > 1_000_000 && e > 100 {
+                            continue;
+                        }
                         let mag = (e as f64) * ((n.abs() as f64) / (d as f64)).log10();
                         if mag.abs() < 290.0 {
                             run_grid(op, vec![rat(n, d), rat(e, 1)]);
